@@ -120,6 +120,47 @@ func c01R1(p *Prog, r *Report) {
 			}
 		}
 	})
+	// readOnceOrFull (which, unless segmented headers are allowed, demands the whole request in
+	// ONE transport read) is the probe-resistance test of the first bytes of a connection only:
+	// with helpers expanded, no other transport read precedes a readOnceOrFull site on any
+	// path, and it is not repeated — a later chunk legitimately arrives in several segments
+	nOnce := 0
+	p.AllFuncs(pkg, func(top *FuncCtx) {
+		for _, fc := range allCtxs(p, p.Inlined(top)) {
+			type site struct {
+				v    int
+				once bool
+				pos  string
+			}
+			var sites []site
+			for _, cs := range fc.AllCalls() {
+				if len(cs.Call.Args) < 2 || !isTransport(fc, cs.Call.Args[0]) {
+					continue
+				}
+				if cs.Fn != nil && funcIs(cs.Fn, "io", "", "ReadFull") {
+					sites = append(sites, site{cs.V, false, cs.Pos()})
+				} else if cs.Fn == nil {
+					if sel, ok := ast.Unparen(cs.Call.Fun).(*ast.SelectorExpr); ok && sel.Sel.Name == "readOnceOrFull" {
+						sites = append(sites, site{cs.V, true, cs.Pos()})
+					}
+				}
+			}
+			for i, s := range sites {
+				if !s.once {
+					continue
+				}
+				nOnce++
+				bad := ""
+				for _, t := range sites {
+					if fc.G.ReachAfter(t.v, nil, nil)[s.v] {
+						bad = t.pos
+					}
+				}
+				r.Check(bad == "", rule, fmt.Sprintf("%s:readOnceOrFull#%d-is-first-read", fc.Name, i), s.pos, "no transport read precedes the one-read test", "the one-read test (readOnceOrFull) is applied to bytes that are not the first of the connection (a transport read at "+bad+" can precede it): a chunk that the network delivers in several segments makes the read fail and the stream is cut")
+			}
+		}
+	})
+	r.Count("one_read_sites_in_expanded_functions", nOnce)
 	// the function value's targets
 	rf := p.Func("ss2022", "", "readOnceOrFullFunc")
 	targets := map[string]bool{}
